@@ -24,11 +24,13 @@ def demo_failed(out):
 
 def main():
     outdir, x = sys.argv[1], sys.argv[2]
-    prop = os.path.basename(outdir.rstrip("/")).replace("out-", "")
-    agent_wt = sys.argv[3] if len(sys.argv) > 3 else "/tmp/wt-" + prop
+    base = os.path.basename(outdir.rstrip("/"))
+    rnd = "R2-" if base.startswith("out2-") else ""
+    prop = base.replace("out2-", "").replace("out-", "")
+    agent_wt = sys.argv[3] if len(sys.argv) > 3 else ("/tmp/wt2-" if rnd else "/tmp/wt-") + prop
     src = os.path.join(outdir, x)
     meta = json.load(open(os.path.join(src, "meta.json")))
-    vw = "/tmp/vw-%s-%s" % (prop, x)
+    vw = "/tmp/vw-%s%s-%s" % (rnd, prop, x)
     sh("git -C /repo worktree remove --force %s" % vw)
     rc, o = sh("git -C /repo worktree add --detach %s HEAD" % vw)
     assert rc == 0, o
@@ -63,7 +65,7 @@ def main():
     report["confirmed"] = bool(ok)
     print(json.dumps({k: v for k, v in report.items() if not k.endswith("_tail") or not ok}, indent=1))
     if ok:
-        dst = "/verif/seeded/%s-%s" % (prop, x)
+        dst = "/verif/seeded/%s%s-%s" % (rnd, prop, x)
         shutil.rmtree(dst, ignore_errors=True)
         os.makedirs(dst)
         for f in os.listdir(src):
